@@ -71,6 +71,59 @@ def result_in_working_precision(ctx, rep, rule: str) -> None:
     rep.floor(rule, "dtype conversions inside the eigenvector routines", n, 1)
 
 
+def defaults_agree_with_configs(ctx, rep, rule: str) -> None:
+    """Duplicated defaults: a parameter of a matrix routine that has the name of a config-dataclass field (the dispatchers forward
+    the config's fields as keyword arguments) must have that field's default — a caller that relies on the signature default
+    (the zero-estimate fallback of the QR method calls matrix_eigenvalue_decomposition(A)) then behaves like the default config.
+    Only defaults that some call site inside the repository relies on (omits the argument) are compared."""
+    repo = ctx.repo
+    m = repo.modules["matrix_functions"]
+    tm = repo.modules.get("matrix_functions_types")
+    if tm is None:
+        raise AnalysisError(f"{rule}: matrix_functions_types not found")
+    # who declares a field (own fields only: subclasses inherit the declaration and its default)
+    owners: dict[str, list[tuple[str, ast.expr]]] = {}
+    for c in tm.classes.values():
+        for name, _ann, default in c.fields:
+            if default is not None and isinstance(default, (ast.Constant, ast.UnaryOp)):
+                owners.setdefault(name, []).append((c.name, default))
+    # which routine serves which config class: the arms of the two dispatchers (`type(cfg) is C` -> call of f)
+    serves: dict[str, set[str]] = {}
+    for disp in ("matrix_inverse_root", "matrix_eigenvectors"):
+        fi = m.functions.get(disp)
+        if fi is None:
+            continue
+        for node in ast.walk(fi.node):
+            if isinstance(node, ast.If):
+                cls_names = {x.id for x in ast.walk(node.test) if isinstance(x, ast.Name) and x.id in tm.classes}
+                for st in node.body:
+                    for c in A.calls(st, nested=True):
+                        callee = A.callee_name(repo, m, c)
+                        if callee.startswith("matrix_functions.") and callee.split(".")[-1] in m.functions:
+                            serves.setdefault(callee.split(".")[-1], set()).update(cls_names)
+    n = 0
+    for fi in m.functions.values():
+        a = fi.node.args
+        pos = a.posonlyargs + a.args
+        for arg, d in list(zip(pos[len(pos) - len(a.defaults):], a.defaults)) + [(k, d) for k, d in zip(a.kwonlyargs, a.kw_defaults) if d is not None]:
+            decl = owners.get(arg.arg, [])
+            # only a default somebody relies on matters: a call site inside the repository that omits this argument
+            pnames = [x.arg for x in pos]
+            idx = pnames.index(arg.arg) if arg.arg in pnames else None
+            sites = [c for g in repo.funcs.values() for c in A.calls(g.node, nested=True) if A.callee_name(repo, g.module, c) == f"matrix_functions.{fi.name}"]
+            relying = [c for c in sites if A.keyword(c, arg.arg) is None and not any(k.arg is None for k in c.keywords) and not (idx is not None and len(c.args) > idx) and not any(isinstance(x, ast.Starred) for x in c.args)]
+            if not relying:
+                continue
+            if len(decl) > 1:  # several configs have a field of this name: the one(s) this routine is dispatched for
+                mine = serves.get(fi.name, set())
+                decl = [(cn, fd) for cn, fd in decl if cn in mine or any(repo.is_subclass(tm.classes[x], tm.classes[cn]) for x in mine if x in tm.classes)]
+            for cname, fd in decl:
+                n += 1
+                ok = _norm(d) == _norm(fd)
+                rep.ob(rule, f"default-agrees-with-config:{fi.name}.{arg.arg}", ok, fi.loc(d), f"`{fi.name}({arg.arg}={_norm(d)})` and `{cname}.{arg.arg} = {_norm(fd)}`: the signature default and the config default are one piece of knowledge", sample=(n % 3 == 0))
+    rep.floor(rule, "relied-upon signature defaults that mirror a config field", n, 1)
+
+
 def run(ctx, rep) -> None:
     rep.rule("C12.1", "eigendecomposition method: eigh of the given matrix, (eigenvalues, eigenvectors) returned on the input device, double-precision retry only under the flag")
     rep.rule("C12.2", "fast paths: 1-element input -> one, diagonal-flagged input -> identity; the diagonal flag is exact; shape rejection first")
@@ -86,6 +139,8 @@ def run(ctx, rep) -> None:
     rep.rule("C12.5", "the eigenvector routines are functions of their tensor arguments (matrix and estimate are never written in place); the basis is returned in the working precision of the matrix")
     rep.attempt("tensor_arguments_are_inputs", tensor_arguments_are_inputs, ctx, rep, "C12.5")
     rep.attempt("result_in_working_precision", result_in_working_precision, ctx, rep, "C12.5")
+    rep.rule("C12.6", "signature defaults of the matrix routines equal the defaults of the config fields they mirror")
+    rep.attempt("defaults_agree_with_configs", defaults_agree_with_configs, ctx, rep, "C12.6")
     from .c03 import _Proxy
 
     rep.attempt("shape_guards", shape_guards, ctx, _Proxy(rep, "C11.1", "C12.2"), "C12.2")
